@@ -103,7 +103,7 @@ func c03r1(c *Ctx) {
 		} else {
 			var bad []string
 			n := 0
-			for _, rc := range p.returnCases(fn) {
+			for _, rc := range p.pfReturnCases(fn) {
 				if !pfReturnInRegion(rc, region) {
 					continue
 				}
@@ -265,7 +265,7 @@ func c03r2(c *Ctx) {
 		var resultCall *ssa.Call
 		oRes := c.Ob(fn, "result-from-recorder", nil, "every return that may carry a nil error returns the recorder's result computed after the object loop")
 		var badRes []string
-		for _, rc := range p.returnCases(fn) {
+		for _, rc := range p.pfReturnCases(fn) {
 			if !p.pfPossiblyNil(rc.Results[eiFn]) {
 				continue
 			}
@@ -350,7 +350,7 @@ func c03r2(c *Ctx) {
 				}
 			}
 			region := pfIterRegion(cv, s.loop.Head)
-			for _, rc := range p.returnCases(fn) {
+			for _, rc := range p.pfReturnCases(fn) {
 				if pfReturnInRegion(rc, region) && p.pfPossiblyNil(rc.Results[eiFn]) {
 					bad = append(bad, "return at "+p.IPos(rc.Ret)+" leaves the object loop with a possibly nil error (remaining objects unprobed)")
 				}
@@ -379,7 +379,7 @@ func c03RecorderInternals(c *Ctx, fn *ssa.Function, recorder *ssa.Alloc, resultC
 	recv := resFn.Params[0]
 	var bad []string
 	nameField, failField := "", ""
-	for _, rc := range p.returnCases(resFn) {
+	for _, rc := range p.pfReturnCases(resFn) {
 		v := rc.Results[0]
 		if pfIsZeroConst(v) {
 			// must be under len(recv.<failures>) == 0
@@ -439,7 +439,7 @@ func c03RecorderInternals(c *Ctx, fn *ssa.Function, recorder *ssa.Alloc, resultC
 		} else {
 			c.Visit(ctor)
 			pi := -1
-			for _, rc := range p.returnCases(ctor) {
+			for _, rc := range p.pfReturnCases(ctor) {
 				if fields, _, ok := compositeFields(rc.Results[0]); ok {
 					for i, prm := range ctor.Params {
 						if fields[nameField] == ssa.Value(prm) {
@@ -665,7 +665,7 @@ func c03r4(c *Ctx) {
 			}
 		}
 		n := 0
-		for _, rc := range p.returnCases(fn) {
+		for _, rc := range p.pfReturnCases(fn) {
 			if !p.pfPossiblyNil(rc.Results[eiFn]) {
 				continue
 			}
